@@ -40,6 +40,7 @@ fn main() {
         match prop.as_str() {
             "C01" => checks::c01::replay(&ctx, body),
             "C11" => checks::c11::replay(&ctx, body),
+            "C08" => checks::c08::replay(&ctx, body),
             "C14" => checks::c14::replay(&ctx, body),
             "C13" => checks::c13::replay(&ctx, body),
             "C19" => checks::c19::replay(&ctx, body),
@@ -53,6 +54,7 @@ fn main() {
         match prop.as_str() {
             "C01" => checks::c01::run(&ctx),
             "C11" => checks::c11::run(&ctx),
+            "C08" => checks::c08::run(&ctx),
             "C14" => checks::c14::run(&ctx),
             "C13" => checks::c13::run(&ctx),
             "C19" => checks::c19::run(&ctx),
